@@ -78,8 +78,26 @@ def skiplist_mechanism(ctx, thorough):
                          env={"JAVA_TOOL_OPTIONS": "-Dtlc2.tool.queue.IStateQueue=StateDeque"}, timeout=1200)
     judge(ctx, res2, ab, "replay of the model's counterexample schedules (a Remove re-validates <page id, counter> of a node removed meanwhile; an Insert re-validates a full node an entry was removed from)")
     replays = sum(1 for e in vlib.read_ndjson(ab) if e["ev"] == "Reset")
+    # hash container (L1 HashTable): model check under the caller's contract (values unique in the table), the contract
+    # dropped must break it; slots of a real two-block table read back after every call
+    hm = vlib.model_check(ctx, "HashTable", "MC", "MC_quick.cfg", workers=4, timeout=900)
+    r = vlib.tlc(ctx, "HashTable", "MC", "MC_loose.cfg", workers=4, timeout=900, name="sens-hash-loose")
+    if "Invariant IsMultimap is violated" not in r["out"]:
+        raise Inconclusive("HashTable MC_loose.cfg no longer fails: the design model lost its sensitivity")
+    ht = os.path.join(ctx.work, "hasht.ndjson")
+    vlib.vdrive(ctx, ["hasht", "seq", ht, 100 if thorough else 12, 100 if thorough else 80], timeout=900)
+    res3 = vlib.validate(ctx, "HashTable", "HashTableTrace", "Trace.cfg", ht, name="val-hasht", timeout=3000)
+    judge(ctx, res3, ht, "linear probing hash table (two blocks, keys at home at the end, the start and on one slot)")
+    hmech = sum(1 for v in res3["viol"] if v["tag"] == "mech.C17.hash")
+    hops = collections.Counter(e["op"] + ":" + e["res"] for e in vlib.read_ndjson(ht) if e["ev"] == "HOp")
+    tomb = sum(1 for e in vlib.read_ndjson(ht) if e["ev"] == "HOp" and any(s[1] == 0 for s in e["slots"]))
+    wrapped = sum(1 for e in vlib.read_ndjson(ht) if e["ev"] == "HOp" and any(s[0] >= 500 for s in e["slots"]) and any(s[0] <= 3 and s[2] in (1, 2, 3, 4, 5) for s in e["slots"]))
+    if hops["Insert:ok"] == 0 or hops["Remove:ok"] == 0 or hops["Get:ok"] == 0 or tomb == 0 or wrapped == 0:
+        raise Inconclusive("vacuous hash table trace: %s, states with tombstones %d, with wrapped entries %d" % (dict(hops), tomb, wrapped))
     return dict(model_states=out, sequential_ops=dict(ops), node_splits=splits, node_removals=removals,
-                structure_divergences=dict(mech), schedule_replays=replays)
+                structure_divergences=dict(mech), schedule_replays=replays,
+                hash_table=dict(model_states=hm["distinct"], calls=dict(hops), states_with_tombstones=tomb,
+                                states_with_wrapped_entries=wrapped, slot_divergences=hmech))
 
 
 
